@@ -271,15 +271,15 @@ func (d *Director) Connect(a *Actor, payout, override string, legacy bool) error
 	var hostsGot []store.Node
 	switch {
 	case legacy && a.IsHost:
-		_, err = a.Conn.RP.Host(ctx, pool.HostRequest{Kind: a.Kind, Payout: payout, NodeURI: override})
+		_, err = a.rp().Host(ctx, pool.HostRequest{Kind: a.Kind, Payout: payout, NodeURI: override})
 	case legacy:
 		var r *pool.ClientResponse
-		r, err = a.Conn.RP.Client(ctx, pool.ClientRequest{Kind: a.Kind})
+		r, err = a.rp().Client(ctx, pool.ClientRequest{Kind: a.Kind})
 		if r != nil {
 			hostsGot = r.Hosts
 		}
 	default:
-		_, err = a.Conn.RP.Connect(ctx, a.ConnectReq(payout, override))
+		_, err = a.rp().Connect(ctx, a.ConnectReq(payout, override))
 	}
 	t1 := time.Now()
 	d.logf("%s -> %v", op, err)
@@ -470,7 +470,7 @@ func (d *Director) update(a *Actor, reported []string, block uint64, oldFormat b
 			d.lastOld[a.ID] = args
 		}
 	} else {
-		resp, err = a.Conn.RP.Update(ctx, pool.UpdateRequest{PeerInfo: PeerInfos(reported), BlockNumber: block})
+		resp, err = a.rp().Update(ctx, pool.UpdateRequest{PeerInfo: PeerInfos(reported), BlockNumber: block})
 	}
 	t1 := time.Now()
 	d.logf("%s -> %v", op, err)
@@ -781,6 +781,22 @@ func (d *Director) Deposit(wl *Wallet, amount *big.Int) {
 }
 
 // CloseConn closes the actor's current connection and waits until the pool has seen it.
+// SharedThenClose registers host b over the connection host a is registered on, then closes that connection: both
+// registrations end with it.  (Nothing else is sent in between: two hosts behind one connection make the pool's
+// whitelist fan-out write to it from two goroutines at once, whose order no observer can rely on.)
+func (d *Director) SharedThenClose(a, b *Actor) {
+	if a == b || !a.IsHost || !b.IsHost || a.Conn == nil || a.Conn.Closed || d.W.Reg[a.ID] != a.Conn {
+		return
+	}
+	shared := a.Conn
+	old := b.Conn
+	b.Conn = shared
+	err := d.Connect(b, "", "enode://"+b.ID+"@198.51.100.77:30303", false)
+	d.logf("#%d   (host %s registered over %s, the connection of %s: %v)", d.n, b.Name, shared.Name, a.Name, err)
+	d.CloseConn(shared)
+	b.Conn = old
+}
+
 func (d *Director) CloseConn(c *Conn) {
 	d.n++
 	d.W.S.Fault("connection_closed")
